@@ -22,6 +22,7 @@ type Scratch struct {
 	Sim        string // copy of /verif/sim
 	Worker     string // engine-1 worker binary
 	Pristine   string // uninstrumented copy of internal/gontainer (the self-configuration and its checked-in output)
+	PristineTree string // uninstrumented copy of the whole working tree (the real binary is built from it on demand)
 	RepoRep    *instr.Report
 	HelpersRep *instr.Report
 	BuildS     float64
@@ -108,6 +109,10 @@ func Base(repo string) (*Scratch, error) {
 	}
 	s := &Scratch{Dir: dir, Repo: filepath.Join(dir, "repo"), Helpers: filepath.Join(dir, "helpers"), Sim: filepath.Join(dir, "sim")}
 	if err := copyTree(repo, s.Repo, true); err != nil {
+		return s, err
+	}
+	s.PristineTree = filepath.Join(dir, "pristine-tree")
+	if err := copyTree(s.Repo, s.PristineTree, false); err != nil {
 		return s, err
 	}
 	hdir, err := run(repo, GoEnv(), "go", "list", "-m", "-f", "{{.Dir}}", HelpersMod)
